@@ -39,6 +39,7 @@ def make_case(seed, t, nmax, precs="sd", drivers=("gssv",), force=None):
         "driver": f.get("driver") or rng.choice(list(drivers)),
         "u": f.get("u", rng.choice([1.0, 1.0, 0.5, 0.125, 0.0, round(rng.random(), 3)])),
         "perturb": f.get("perturb", rng.choice([0, 0, 1, 3])),
+        "evlog": f.get("evlog", 0),
     }
     # tunables precondition (DESIGN §7-F8): a relaxed supernode may have up to `relax` columns, and every
     # size computed from maxsuper (work arrays, slot table) assumes relax <= maxsuper.
@@ -51,6 +52,8 @@ def script_for(cfg, M, rhs):
     single = cfg["prec"] in "sc"
     s = "ienv %d %d %d %d %d -50 -50 -30\n" % (cfg["panel"], cfg["relax"], cfg["maxsuper"], cfg["rowblk"], cfg["colblk"])
     s += "perturb %d %d\n" % (cfg["perturb"], cfg["t"] + 1)
+    if cfg.get("evlog"):
+        s += "evlog 1 1\n"
     s += G.script_mat(0, M, nr=(cfg["stype"] == "NR"), single=single)
     s += G.script_rhs(0, cfg["n"], cfg["nrhs"], cfg["ld"], rhs, M.cplx, single)
     s += "permc_get 0 %d\n" % cfg["colperm"]
@@ -133,6 +136,11 @@ def sweep(ctx, ncases, nmax, precs="d", drivers=("gssv",), flavour="plain", forc
         cfg, M, rhs = c
         rec = run_case(exes, cfg, M, rhs)
         rec["M"] = M; rec["rhs"] = rhs
+        if rec["status"] == "ok" and cfg.get("evlog"):
+            from . import evmon
+            rec["evmon"] = evmon.check(rec["res"].get("events", []), min(cfg["nprocs"], 10 ** 9))
+            rec["n_events"] = len(rec["res"].get("events", []))
+            rec["res"]["events"] = rec["res"]["events"][:0]   # free memory
         if rec["status"] == "ok" and 0 <= rec["info"] and not rec["res"].get("noLU") and not M.cplx:
             try:
                 rec["lutext"] = lucase_for(rec, M, rhs)
